@@ -242,6 +242,64 @@ class Extraction(object):
     pass
 
 
+
+def _row_star_extraction(fi, selfn):
+    """Layout 3: `stars = ((i, self.__find_star_in_row(i)) for i in range(R))`; `return [(i, j) for (i, j) in stars if j < W]`."""
+    rets = lib.returns_of(fi.node)
+    if len(rets) != 1:
+        return None
+    out = deref(fi, rets[0].value)
+    if not (isinstance(out, (ast.ListComp,)) and len(out.generators) == 1):
+        return None
+    g = out.generators[0]
+    src = deref(fi, g.iter) if isinstance(g.iter, ast.Name) else g.iter
+    if not (isinstance(src, (ast.GeneratorExp, ast.ListComp)) and len(src.generators) == 1 and not src.generators[0].ifs
+            and isinstance(src.elt, ast.Tuple) and len(src.elt.elts) == 2 and isinstance(src.generators[0].target, ast.Name)
+            and is_call_to(src.generators[0].iter, 'range', 1)):
+        return None
+    iv = src.generators[0].target.id
+    first, second = src.elt.elts
+    if not (is_name(first, iv) and isinstance(second, ast.Call) and is_self_attr(second.func, selfn) and len(second.args) == 1
+            and is_name(second.args[0], iv)):
+        return None
+    if not (isinstance(g.target, ast.Tuple) and len(g.target.elts) == 2 and all(isinstance(t, ast.Name) for t in g.target.elts)):
+        return None
+    a, b = g.target.elts[0].id, g.target.elts[1].id
+    ex = Extraction()
+    ex.layout = 'row-star'
+    ex.fi, ex.selfn = fi, selfn
+    ex.collection = out
+    ex.row_bound = src.generators[0].iter.args[0]
+    ex.finder = second.func.attr
+    ex.col_filter, ex.col_bound, ex.col_op = None, None, None
+    conds = [x for c in g.ifs for x in nf.conjuncts(nf.canon(c))]
+    extra = []
+    for c in conds:
+        if isinstance(c, ast.Compare) and len(c.ops) == 1 and is_name(c.left, b) and isinstance(c.ops[0], (ast.Lt, ast.LtE)):
+            ex.col_filter, ex.col_bound, ex.col_op = c, c.comparators[0], '<' if isinstance(c.ops[0], ast.Lt) else '<='
+        elif nf.match('%s is not None' % b, c) is not None or nf.match('0 <= %s' % b, c) is not None:
+            pass        # "a star was found" -- always true for the solved matrix
+        else:
+            extra.append(c)
+    ex.extra = extra
+    ex.pair = out.elt
+    ex.pair_order = None
+    if isinstance(out.elt, ast.Tuple) and len(out.elt.elts) == 2:
+        if is_name(out.elt.elts[0], a) and is_name(out.elt.elts[1], b):
+            ex.pair_order = 'row-col'
+        elif is_name(out.elt.elts[0], b) and is_name(out.elt.elts[1], a):
+            ex.pair_order = 'col-row'
+    ex.emit_kind, ex.emit_node = 'append', out
+    ex.nest = [(a, src.generators[0].iter, out)]
+    ex.loops = {a: (src.generators[0].iter, out)}
+    ex.for_loops = []
+    ex.sink = None
+    ex.returns = rets
+    ex.bad_returns = []
+    ex.test = out
+    return ex
+
+
 def extraction_facts(idx):
     """Facts about the code at the end of Munkres.compute that turns starred zeros into (row, col) pairs.
 
@@ -257,9 +315,14 @@ def extraction_facts(idx):
         if isinstance(n, ast.Compare) and len(n.ops) == 1 and isinstance(n.left, ast.Subscript) \
                 and isinstance(n.left.value, ast.Subscript) and is_self_attr(n.left.value.value, selfn, 'marked'):
             tests.append(n)
+    if not tests:
+        alt = _row_star_extraction(fi, selfn)
+        if alt is not None:
+            return alt
     if len(tests) != 1:
         raise AnalysisError('Munkres.compute: expected one test of self.marked[i][j], found %d' % len(tests))
     ex = Extraction()
+    ex.layout = 'cells'
     ex.fi, ex.selfn, ex.test = fi, selfn, tests[0]
     ex.row_idx, ex.col_idx = tests[0].left.value.slice, tests[0].left.slice
     if not (is_name(ex.row_idx) and is_name(ex.col_idx)):
@@ -724,3 +787,178 @@ def guard_clause_nesting(stmts):
     for s in res:
         ast.fix_missing_locations(s)
     return res
+
+
+# ------------------------------------------------------ small accumulator classes ("tally" objects)
+RESOLVED_HELPERS = set()      # helpers whose complete body was folded into an analysed expression
+ACCUMULATOR_CLASSES = set()   # qualified names of classes understood by object_fields
+
+
+def object_fields(idx, module, call):
+    """Symbolic fields of `Cls(args)` for a small accumulator class of the module whose __init__ initialises fields to [] / 0
+    and fills them in ONE loop over a constructor argument:
+        self.xs.append(E(item))            -> xs = [E(item) for item in ARG]
+        if C(item): self.xs.append(E)      -> xs = [E(item) for item in ARG if C(item)]
+        if C(item): self.n += 1            -> n  = sum(1 for item in ARG if C(item))
+    Callback parameters bound to a lambda or to a one-line module function are inlined.  -> {field: expr} or None."""
+    if not (isinstance(call, ast.Call) and isinstance(call.func, ast.Name)):
+        return None
+    kind, ci = idx.resolve_name(module, call.func.id)
+    if kind != 'class' or '__init__' not in ci.methods:
+        return None
+    init = ci.methods['__init__']
+    S = init.params[0]
+    params = init.params[1:]
+    args = init.node.args
+    defaults = dict(zip([a.arg for a in args.args][len(args.args) - len(args.defaults):], args.defaults))
+    bound = {}
+    for pn, a in zip(params, call.args):
+        bound[pn] = a
+    for kw in call.keywords:
+        if kw.arg is None:
+            return None
+        bound[kw.arg] = kw.value
+    for pn in params:
+        if pn not in bound:
+            if pn not in defaults:
+                return None
+            bound[pn] = defaults[pn]
+
+    def inline_callbacks(e):
+        class T(ast.NodeTransformer):
+            def visit_Call(self, node):
+                self.generic_visit(node)
+                if isinstance(node.func, ast.Name) and node.func.id in bound and len(node.args) == 1 and not node.keywords:
+                    f = bound[node.func.id]
+                    if isinstance(f, ast.Lambda) and len(f.args.args) == 1:
+                        return nf.subst(f.body, {f.args.args[0].arg: node.args[0]})
+                    if isinstance(f, ast.Name):
+                        k2, fo = idx.resolve_name(module, f.id)
+                        if k2 == 'func' and len(fo.params) == 1:
+                            body = [x for x in fo.node.body if not (isinstance(x, ast.Expr) and isinstance(x.value, ast.Constant))]
+                            if len(body) == 1 and isinstance(body[0], ast.Return) and body[0].value is not None:
+                                RESOLVED_HELPERS.add(fo.qualname)          # its whole body (one return) is now part of the expression
+                                return nf.subst(body[0].value, {fo.params[0]: node.args[0]})
+                    raise AnalysisError('callback `%s` of %s cannot be inlined' % (short(node), ci.name))
+                return node
+        from ..index import clone
+        return T().visit(clone(e))
+    fields, loops = {}, []
+    for st in init.node.body:
+        if isinstance(st, ast.Expr) and isinstance(st.value, ast.Constant):
+            continue
+        if isinstance(st, ast.Assign) and len(st.targets) == 1 and is_self_attr(st.targets[0], S):
+            v = st.value
+            if isinstance(v, ast.List) and not v.elts:
+                fields[st.targets[0].attr] = ('list', [])
+            elif isinstance(v, ast.Constant) and v.value == 0 and not isinstance(v.value, bool):
+                fields[st.targets[0].attr] = ('count', [])
+            elif isinstance(v, ast.Name) and v.id in bound:
+                fields[st.targets[0].attr] = ('value', bound[v.id])
+            else:
+                return None
+        elif isinstance(st, ast.For) and not st.orelse:
+            loops.append(st)
+        else:
+            return None
+    if len(loops) > 1:
+        return None
+    if loops:
+        lp = loops[0]
+        if not (isinstance(lp.target, ast.Name) and isinstance(lp.iter, ast.Name) and lp.iter.id in bound):
+            return None
+        item, arg = lp.target.id, bound[lp.iter.id]
+
+        def visit(stmts, conds):
+            for st in stmts:
+                if isinstance(st, ast.If) and not st.orelse:
+                    if not visit(st.body, conds + [st.test]):
+                        return False
+                elif isinstance(st, ast.Expr) and isinstance(st.value, ast.Call) and isinstance(st.value.func, ast.Attribute) \
+                        and st.value.func.attr == 'append' and is_self_attr(st.value.func.value, S) and len(st.value.args) == 1:
+                    f = st.value.func.value.attr
+                    if fields.get(f, (None,))[0] != 'list' or fields[f][1]:
+                        return False
+                    fields[f][1].append((st.value.args[0], list(conds)))
+                elif isinstance(st, ast.AugAssign) and isinstance(st.op, ast.Add) and is_self_attr(st.target, S) \
+                        and isinstance(st.value, ast.Constant) and st.value.value == 1:
+                    f = st.target.attr
+                    if fields.get(f, (None,))[0] != 'count' or fields[f][1]:
+                        return False
+                    fields[f][1].append((None, list(conds)))
+                else:
+                    return False
+            return True
+        if not visit(lp.body, []):
+            return None
+    ACCUMULATOR_CLASSES.add(ci.qualname)
+    out = {}
+    for f, (kind_, entries) in fields.items():
+        if kind_ == 'value':
+            out[f] = entries
+            continue
+        if not entries:
+            out[f] = ast.List(elts=[], ctx=ast.Load()) if kind_ == 'list' else ast.Constant(value=0)
+            continue
+        e, conds = entries[0]
+        gen = ast.comprehension(target=ast.Name(id=item, ctx=ast.Store()), iter=arg, ifs=[inline_callbacks(c) for c in conds], is_async=0)
+        if kind_ == 'list':
+            out[f] = ast.ListComp(elt=inline_callbacks(e), generators=[gen])
+        else:
+            out[f] = ast.Call(func=ast.Name(id='sum', ctx=ast.Load()),
+                              args=[ast.GeneratorExp(elt=ast.Constant(value=1), generators=[gen])], keywords=[])
+        ast.fix_missing_locations(out[f])
+    return out
+
+
+def resolve_objects(idx, module, expr):
+    """Replace `Cls(args).field` by the symbolic field of the accumulator object (see object_fields); `list([..])` -> `[..]`;
+    `len([E for x in L])` (no filter) -> `len(L)`."""
+    from ..index import clone
+
+    class T(ast.NodeTransformer):
+        def visit_Attribute(self, node):
+            self.generic_visit(node)
+            if isinstance(node.value, ast.Call) and isinstance(node.value.func, ast.Name):
+                f = object_fields(idx, module, node.value)
+                if f is not None and node.attr in f:
+                    return clone(f[node.attr])
+            return node
+
+        def visit_Call(self, node):
+            self.generic_visit(node)
+            if isinstance(node.func, ast.Name) and node.func.id == 'list' and len(node.args) == 1 and not node.keywords \
+                    and isinstance(node.args[0], ast.ListComp):
+                return node.args[0]
+            if isinstance(node.func, ast.Name) and node.func.id == 'len' and len(node.args) == 1 \
+                    and isinstance(node.args[0], ast.ListComp) and len(node.args[0].generators) == 1 and not node.args[0].generators[0].ifs:
+                return ast.Call(func=node.func, args=[node.args[0].generators[0].iter], keywords=[])
+            return node
+    if expr is None:
+        return None
+    out = T().visit(clone(expr))
+    ast.fix_missing_locations(out)
+    return out
+
+
+def mark_folded_helpers_reviewed(idx):
+    """Un-inlined helpers that were nevertheless analysed in full are taken off the engine's `unreviewed` list:
+    * one-line callbacks folded into an expression by object_fields;
+    * methods of an accumulator class understood by object_fields whose calls were all inlined by the normaliser
+      (no `.name(...)` call is left in any function outside the class)."""
+    left = list(getattr(idx, 'unreviewed', []) or [])
+    for q in left:
+        if q in RESOLVED_HELPERS:
+            idx.unreviewed.remove(q)
+            continue
+        owner, _, name = q.rpartition('.')
+        if owner in ACCUMULATOR_CLASSES:
+            used = False
+            for f in idx.package_funcs():
+                if f.qualname.startswith(owner + '.'):
+                    continue
+                for c in walk_own(f.node):
+                    if isinstance(c, ast.Call) and isinstance(c.func, ast.Attribute) and c.func.attr == name:
+                        used = True
+            if not used:
+                idx.unreviewed.remove(q)
